@@ -1643,6 +1643,120 @@ func (l *Lang) foldSteps(res *report.RuleResult, root ast.Node, keyPrefix, subje
 	return steps
 }
 
+// ---- list-index ----------------------------------------------------------------------------------------------
+//
+// `$3[len($3)-1]`, `$4[0]`, `$4[1:]`, `pairList.Items[0]`: an action takes the first or last element of a
+// list a right-hand-side symbol carries (or reslices it by one). On an empty list the action panics - on the
+// input that makes the list empty. The rule takes every such expression the interpreter evaluated (also
+// inside functions of the package that the normaliser inlined into the action) and requires the list to be
+// non-empty on that path: the symbol's productions never yield an empty list, and either never yield nil or
+// the path tested the value against nil; a list built in the action with an element; a field of a carrier
+// object that every production of the symbol fills with a non-empty list; or a length test on the path.
+// Elements taken at a loop variable are bounded by the loop and are not obligations of this rule.
+func (l *Lang) ListIndex(shapes map[string]*Shape) *report.RuleResult {
+	res := report.NewResult("list-index")
+	g := l.L.G
+	if l.ntNonEmpty == nil {
+		l.TreePresence(shapes)
+	}
+	for n := 1; n < len(l.Actions); n++ {
+		a := l.Actions[n]
+		if a == nil {
+			continue
+		}
+		symName := func(i int) string {
+			if i >= 1 && i <= len(a.Prod.RHS) {
+				return a.Prod.RHS[i-1]
+			}
+			return ""
+		}
+		var nonEmpty func(v Val, ev *Event) (bool, string)
+		nonEmpty = func(v Val, ev *Event) (bool, string) {
+			if ev != nil && ev.LenPos {
+				return true, "its length is tested on the path"
+			}
+			switch x := v.(type) {
+			case ListV:
+				for _, sg := range x.Segs {
+					if _, ok := sg.(Elem); ok {
+						return true, "built here with an element"
+					}
+				}
+				for _, sg := range x.Segs {
+					if ok, why := nonEmpty(sg, nil); ok {
+						return true, "extends a list that is non-empty: " + why
+					}
+				}
+				return false, "the list built here can be empty"
+			case Sym:
+				nm := symName(x.I)
+				sy := g.Symbols[nm]
+				if sy == nil || sy.Terminal {
+					return false, nm + " is not a list-valued nonterminal"
+				}
+				sh := shapes[nm]
+				switch {
+				case sh == nil || sh.Unknown:
+					return false, "what " + nm + " yields is not summarised"
+				case sh.MayEmpty:
+					return false, "a production of " + nm + " yields an empty list"
+				case sh.MayNil && !(ev != nil && ev.NonNil):
+					return false, "a production of " + nm + " yields nil and the path does not test for it"
+				}
+				return true, "no production of " + nm + " yields an empty list"
+			case Part:
+				if sy, ok := x.Base.(Sym); ok {
+					nm := symName(sy.I)
+					if l.ntNonEmpty[nm][x.T+"."+x.F] {
+						return true, fmt.Sprintf("every production of %s fills %s.%s with a non-empty list", nm, x.T, x.F)
+					}
+					return false, fmt.Sprintf("some production of %s leaves %s.%s empty", nm, x.T, x.F)
+				}
+			case Slc:
+				return false, "a reslice of a list can be empty"
+			}
+			return false, fmt.Sprintf("the list %s is not one the rule can bound", v.String())
+		}
+		type verdict struct {
+			ok   bool
+			why  string
+			at   token.Pos
+			path string
+		}
+		sites := map[string]*verdict{}
+		var order []string
+		for _, p := range a.Paths {
+			for i := range p.St.Events {
+				ev := &p.St.Events[i]
+				if ev.Kind != "index" {
+					continue
+				}
+				k := fmt.Sprintf("%s:%s/%s", l.L.Label, g.Key(a.Prod), ev.Args[2])
+				ok, why := nonEmpty(ev.Args[0], ev)
+				v := sites[k]
+				if v == nil {
+					v = &verdict{ok: true, why: why, at: ev.At}
+					sites[k] = v
+					order = append(order, k)
+				}
+				if !ok && v.ok {
+					v.ok, v.why, v.path = false, why, pathLabel(p)
+				}
+			}
+		}
+		for _, k := range order {
+			v := sites[k]
+			res.Count("sites", 1)
+			if v.ok {
+				res.OK(k, l.Prog.Pos(v.at), a.Prod.String(), "the list is non-empty: "+v.why)
+			} else {
+				res.Bad(k, l.Prog.Pos(v.at), a.Prod.String(), fmt.Sprintf("the list can be empty on the path [%s]: %s; the action panics", v.path, v.why))
+			}
+		}
+	}
+	return res
+}
+
 // ---- nil-deref ---------------------------------------------------------------------------------------------
 //
 // On some path of an action a field is read through a pointer that is nil on that path: a local pointer that
